@@ -1,3 +1,30 @@
 """Finite-table obligations (DESIGN 2.12): ground facts about the generated tables of the current tree,
 decided by complete enumeration.  Each function returns a list of {'name', 'ok', 'cases', 'witness'}."""
 from . import front
+
+
+def _result(name, bad, cases):
+    return {'name': name, 'ok': not bad, 'cases': cases, 'witness': bad[:5]}
+
+
+def table_statuscodes():
+    """C06: STATUSCODE2EXCEPTION maps exactly the standard second-level status URIs, each to the StatusError subclass
+    named after the URI's last component (documented naming), and to nothing else"""
+    samlp = front.module_obj('saml2_tophat.samlp')
+    resp = front.module_obj('saml2_tophat.response')
+    table = resp.STATUSCODE2EXCEPTION
+    expected = {}
+    for n in sorted(vars(samlp)):
+        if n.startswith('STATUS_') and n not in ('STATUS_SUCCESS', 'STATUS_REQUESTER'):
+            expected[getattr(samlp, n)] = ('Status' + getattr(samlp, n).rsplit(':', 1)[1]).lower()
+    bad = []
+    for uri, want in sorted(expected.items()):
+        got = table.get(uri)
+        if got is None:
+            bad.append('no entry for %s' % uri)
+        elif got.__name__.lower() != want or not issubclass(got, resp.StatusError):
+            bad.append('%s -> %s (expected a StatusError subclass named like %s)' % (uri, got.__name__, want))
+    for uri in sorted(table):
+        if uri not in expected:
+            bad.append('unexpected key %s' % uri)
+    return [_result('table[STATUSCODE2EXCEPTION]', bad, len(expected) + len(table))]
